@@ -165,7 +165,8 @@ PROPS = {
         "rule": ("each run: a world on policy A updated before the threads "
                  "start, 2-6 caller tasks with seeded scripts (calls through "
                  "every route, resolve, erroring calls with a throwing "
-                 "handler, virtual_ptr make/copy/use/drop) and one task that "
+                 "handler, virtual_ptr make/copy/use/drop; in 12% of the runs "
+                 "A dispatches through generated static offsets) and one task that "
                  "loads, unloads, updates and calls policy B; a seeded "
                  "scheduler releases one real thread at a time (yield points "
                  "between operations, through hook H2 inside yomm2, and right "
